@@ -34,6 +34,7 @@ where
     errors: [MaybeUninit<E>; N],
     error_states: PollArray<N>,
     completed: usize,
+    done: bool,
 }
 
 #[pinned_drop]
@@ -75,6 +76,8 @@ where
     fn poll(self: Pin<&mut Self>, cx: &mut Context<'_>) -> Poll<Self::Output> {
         let this = self.project();
 
+        assert!(!*this.done, "Futures must not be polled after completing");
+
         let futures = iter_pin_mut(this.futures);
 
         for ((fut, out), st) in futures
@@ -86,7 +89,10 @@ where
             }
             if let Poll::Ready(output) = fut.poll(cx) {
                 match output {
-                    Ok(ok) => return Poll::Ready(Ok(ok)),
+                    Ok(ok) => {
+                        *this.done = true;
+                        return Poll::Ready(Ok(ok));
+                    }
                     Err(err) => {
                         *out = MaybeUninit::new(err);
                         *this.completed += 1;
@@ -101,6 +107,7 @@ where
             let mut errors = array::from_fn(|_| MaybeUninit::uninit());
             mem::swap(&mut errors, this.errors);
             this.error_states.set_all_none();
+            *this.done = true;
 
             // SAFETY: we know that all futures are properly initialized because they're all completed
             let result = unsafe { array_assume_init(errors) };
@@ -126,6 +133,7 @@ where
             errors: array::from_fn(|_| MaybeUninit::uninit()),
             error_states: PollArray::new_pending(),
             completed: 0,
+            done: false,
         }
     }
 }
